@@ -622,6 +622,10 @@ class Simplifier:
                     self.mark(None)
                     sts = sts[:i] + list(init[2]) + [("let", s[1], s[2], s[3], init[3])] + rest
                     continue
+                if s[2][0] == "pbind" and not s[2][3] and is_path1(strip(init), s[2][2]):
+                    self.mark(None)                       # let x = x;   (a re-binding of the same value)
+                    sts = sts[:i] + rest
+                    continue
                 if s[2][0] == "pbind":
                     x = s[2][2]
                     after = mkblock(s[1], rest, tail)
